@@ -1,4 +1,7 @@
 import CoapVerif.Lemmas.Exchange
+import CoapVerif.Lemmas.ExchangeTimed
+import CoapVerif.Lemmas.ExchangeRun
+import CoapVerif.Lemmas.ExchangeServer
 /-
 C07 — each request concludes exactly once despite loss, duplication and delay.
 
@@ -435,7 +438,12 @@ theorem response_ends_exchange {req r : Dgram} (X : Exchange req r) (c0 : Client
     admitting ANY response datagram carrying the request's token and without `NoLate`; it is false for the pinned
     code (witnesses below).
     Under these hypotheses, for every schedule: never both, never twice (≤ 1 conclusion), and never neither once the
-    client is quiet (send queue empty) unless no copy of the response ever arrived. -/
+    client is quiet (send queue empty) unless no copy of the response ever arrived.
+    The two side conditions are discharged further down: D2 is a theorem about the server model for the piggybacking
+    and the de-duplicating personalities (`server_one_response_message`, inside the closed loop:
+    `exactly_once_closed_loop_partial`); `NoLate` follows from network delays < ACK_TIMEOUT for piggybacked responses
+    (`exactly_once_piggybacked`, `exactly_once_piggybacked_quiet`: nothing left open) and does NOT for separate ones
+    (the open finding); liveness proper is `never_neither`. -/
 theorem exactly_once_partial {req r : Dgram} (X : Exchange req r) (c0 : Client) (hidle : c0.L = Idle)
     (hfresh : fresh c0 r) (now0 T : Nat) (es : List CEvent) (hes : ∀ e ∈ es, ExEv req r e)
     (hlate : NoLate r (c0.appSend now0 req T).1 es) :
@@ -477,5 +485,1128 @@ example :
   · exact .response _ _
   · exact .tick _
   · exact .response _ _
+
+/-! ## liveness, the closed loop (client + network + server), whole runs
+
+  * liveness ("never neither once the network is quiet"): `never_neither` (full), `concludes_when_quiet_partial` (= 1);
+  * side condition D2 proved for the server model: `server_one_response_message`;
+  * client, network and server composed (`Sys`): `exactly_once_closed_loop_partial` (all personalities that answer with
+    an ACK or a CON), `exactly_once_piggybacked` (timed argument: delays < ACK_TIMEOUT ⇒ no late copy; no `NoLate`);
+  * whole runs under D1: `run_con_responses_acked`, `run_con_response_acked_at`, `run_duplicates_not_redelivered`. -/
+
+theorem tick_fst_L (c : Client) (now : Nat) : (c.tick now).1.L = (c.L.tickAll now).1 := rfl
+theorem tick_snd (c : Client) (now : Nat) : (c.tick now).2 = (c.L.tickAll now).2 := rfl
+
+/-- the clock is fair to the client: each of the timer calls at the times `ts` comes at or after the deadline of the
+    request that is waiting then (if one is) -/
+def TimerRuns : Client → List Nat → Prop
+  | _, [] => True
+  | c, t :: ts => (∀ n ∈ c.L.sendq, n.due ≤ t) ∧ TimerRuns (c.tick t).1 ts
+
+/-- only time passes: the network is quiet -/
+def ticks (ts : List Nat) : List CEvent := ts.map CEvent.tick
+
+theorem run_ticks_Idle (ts : List Nat) (c : Client) (hL : c.L = Idle) : Client.run c (ticks ts) = (c, []) := by
+  induction ts with
+  | nil => rfl
+  | cons t ts ih =>
+    show Client.run c (CEvent.tick t :: ticks ts) = (c, [])
+    rw [Client.run_cons]
+    have : c.step (.tick t) = (c, []) := tick_Idle_client c t hL
+    rw [this]; simp [ih]
+
+theorem run_ticks_Wt : ∀ (ts : List Nat) (c : Client) (n : Node), c.L = Wt n → n.d.type = .con → TimerRuns c ts →
+    1 ≤ ts.length → 5 ≤ ts.length + n.cnt →
+    (Client.run c (ticks ts)).1.L = Idle ∧ nRsp (Client.run c (ticks ts)).2 = 0 ∧ nNack (Client.run c (ticks ts)).2 = 1 := by
+  intro ts
+  induction ts with
+  | nil => intro c n _ _ _ h1 _; simp at h1
+  | cons t ts ih =>
+    intro c n hL hc htr h1 h5
+    show (Client.run c (CEvent.tick t :: ticks ts)).1.L = Idle ∧ nRsp (Client.run c (CEvent.tick t :: ticks ts)).2 = 0 ∧
+      nNack (Client.run c (CEvent.tick t :: ticks ts)).2 = 1
+    rw [Client.run_cons]
+    simp only [Client.step, nRsp_append, nNack_append]
+    have hdue : n.due ≤ t := htr.1 n (by rw [hL]; simp [Wt])
+    have hidle : ∀ (c' : Client), c'.L = Idle →
+        (Client.run c' (ticks ts)).1.L = Idle ∧ nRsp (Client.run c' (ticks ts)).2 = 0 ∧ nNack (Client.run c' (ticks ts)).2 = 0 := by
+      intro c' h; rw [run_ticks_Idle ts c' h]; exact ⟨h, rfl, rfl⟩
+    have hfl := tick_fst_L c t
+    have hsn := tick_snd c t
+    rw [hL] at hfl hsn
+    rcases Layer.tick_Wt t (((Wt n).sendq.length + 1) * 6) n hc with ⟨n', a1, a2, a3, a4⟩ | ⟨a1, a3, a4⟩
+    · -- retransmitted: the counter went up
+      have hcnt := (Layer.tick_Wt_cnt t _ n hc n' a1).2 hdue (by simp [Wt])
+      have hL' : (c.tick t).1.L = Wt n' := by rw [hfl]; exact a1
+      have hlen : 1 ≤ ts.length := by
+        rcases Nat.lt_or_ge n.cnt maxRetransmit with hlt | hge
+        · simp only [List.length_cons, maxRetransmit] at h5 hlt; omega
+        · have := Layer.tick_Wt_giveup t 11 n hc hdue hge
+          have h12 : ((Wt n).sendq.length + 1) * 6 = 11 + 1 := by simp [Wt]
+          rw [h12, this] at a1
+          simp [Idle, Wt] at a1
+      obtain ⟨b1, b2, b3⟩ := ih (c.tick t).1 n' hL' (by rw [a2]; exact hc) htr.2 hlen
+        (by simp only [List.length_cons] at h5; omega)
+      refine ⟨b1, ?_, ?_⟩
+      · rw [hsn]; unfold Layer.tickAll; rw [a3, b2]
+      · rw [hsn]; unfold Layer.tickAll; rw [a4, b3]
+    · have hL' : (c.tick t).1.L = Idle := by rw [hfl]; exact a1
+      obtain ⟨b1, b2, b3⟩ := hidle (c.tick t).1 hL'
+      refine ⟨b1, ?_, ?_⟩
+      · rw [hsn]; unfold Layer.tickAll; rw [a3, b2]
+      · rw [hsn]; unfold Layer.tickAll; rw [a4, b3]
+
+theorem run_ticks_any : ∀ (ts : List Nat) (c : Client) (n : Node), c.L = Wt n → n.d.type = .con →
+    nRsp (Client.run c (ticks ts)).2 = 0 ∧
+    ((∃ n', (Client.run c (ticks ts)).1.L = Wt n' ∧ n'.d = n.d) ∧ nNack (Client.run c (ticks ts)).2 = 0 ∨
+     (Client.run c (ticks ts)).1.L = Idle ∧ nNack (Client.run c (ticks ts)).2 = 1) := by
+  intro ts
+  induction ts with
+  | nil => intro c n hL _; exact ⟨rfl, Or.inl ⟨⟨n, hL, rfl⟩, rfl⟩⟩
+  | cons t ts ih =>
+    intro c n hL hc
+    have hx : ticks (t :: ts) = CEvent.tick t :: ticks ts := rfl
+    rw [hx, Client.run_cons]
+    simp only [Client.step, nRsp_append, nNack_append]
+    have hfl := tick_fst_L c t
+    have hsn := tick_snd c t
+    rw [hL] at hfl hsn
+    rcases Layer.tick_Wt t (((Wt n).sendq.length + 1) * 6) n hc with ⟨n', a1, a2, a3, a4⟩ | ⟨a1, a3, a4⟩
+    · have hL' : (c.tick t).1.L = Wt n' := by rw [hfl]; exact a1
+      obtain ⟨b1, b2⟩ := ih (c.tick t).1 n' hL' (by rw [a2]; exact hc)
+      have e3 : nRsp (c.tick t).2 = 0 := by rw [hsn]; exact a3
+      have e4 : nNack (c.tick t).2 = 0 := by rw [hsn]; exact a4
+      refine ⟨by omega, ?_⟩
+      rcases b2 with ⟨⟨n'', c1, c2⟩, c3⟩ | ⟨c1, c3⟩
+      · exact Or.inl ⟨⟨n'', c1, c2.trans a2⟩, by omega⟩
+      · exact Or.inr ⟨c1, by omega⟩
+    · have hL' : (c.tick t).1.L = Idle := by rw [hfl]; exact a1
+      have e3 : nRsp (c.tick t).2 = 0 := by rw [hsn]; exact a3
+      have e4 : nNack (c.tick t).2 = 1 := by rw [hsn]; exact a4
+      rw [run_ticks_Idle ts _ hL']
+      exact ⟨by simp [e3], Or.inr ⟨hL', by simp [e4]⟩⟩
+
+/-- an arrival of a copy of the empty ACK of the request -/
+def isEAck (req : Dgram) : CEvent → Prop
+  | .rx _ d _ => d = emptyAck req.mid
+  | _ => False
+
+theorem all_ticks {req r : Dgram} : ∀ (es : List CEvent), (∀ e ∈ es, ExEv req r e) → (∀ e ∈ es, ¬ isRsp r e) →
+    (∀ e ∈ es, ¬ isEAck req e) → ∃ ts, es = ticks ts := by
+  intro es
+  induction es with
+  | nil => intro _ _ _; exact ⟨[], rfl⟩
+  | cons e es ih =>
+    intro h1 h2 h3
+    obtain ⟨ts, hts⟩ := ih (fun e he => h1 e (List.mem_cons_of_mem _ he)) (fun e he => h2 e (List.mem_cons_of_mem _ he))
+      (fun e he => h3 e (List.mem_cons_of_mem _ he))
+    cases h1 e (List.mem_cons_self ..) with
+    | tick now => exact ⟨now :: ts, by simp [ticks, hts]⟩
+    | emptyAck now ok => exact absurd rfl (h3 _ (List.mem_cons_self ..))
+    | response now ok => exact absurd rfl (h2 _ (List.mem_cons_self ..))
+
+/-- the phase reached by an exchange (packaging of `run_ph` from the moment the request is sent) -/
+theorem exchange_phase {req r : Dgram} (X : Exchange req r) (c0 : Client) (hidle : c0.L = Idle)
+    (hfresh : fresh c0 r) (now0 T : Nat) (es : List CEvent) (hes : ∀ e ∈ es, ExEv req r e)
+    (hlate : NoLate r (c0.appSend now0 req T).1 es) :
+    ∃ ph', PhOk req r ph' (Client.run c0 (.appSend now0 req T :: es)).1 ∧
+      scoreR ph' = nRsp (Client.run c0 (.appSend now0 req T :: es)).2 ∧
+      scoreN ph' = nNack (Client.run c0 (.appSend now0 req T :: es)).2 ∧
+      ((ph' = .waiting ∨ ph' = .acked) → ∀ e ∈ es, ¬ isRsp r e) := by
+  have hs := appSend_Idle c0 now0 req T hidle X.hreq
+  have hok : PhOk req r .waiting (c0.appSend now0 req T).1 := by
+    rw [hs]; exact ⟨⟨_, rfl, rfl⟩, hfresh⟩
+  obtain ⟨ph', hok', hr', hn', hw'⟩ := run_ph X es .waiting _ hok hes hlate (fun h => by cases h)
+  have ho : (c0.appSend now0 req T).2 = [Out.tx req] := by rw [hs]
+  refine ⟨ph', ?_, ?_, ?_, hw'⟩
+  · rw [Client.run_cons]; exact hok'
+  · rw [Client.run_cons]; simp only [Client.step, ho, nRsp_append]; simpa [scoreR] using hr'
+  · rw [Client.run_cons]; simp only [Client.step, ho, nNack_append]; simpa [scoreN] using hn'
+
+/-- **never neither once the network is quiet** (liveness) — partial only in that it still carries `NoLate` (the open
+    finding; the count would be 2, not 0, without it).  For EVERY schedule `es` of the exchange that is FAIR —
+    a copy of the response is delivered (so a request copy and a response copy got through), or no copy of the empty
+    ACK is delivered (so nothing stops the retransmissions and MAX_RETRANSMIT is exhausted) — and every continuation
+    in which the network is quiet and the clock runs (`ticks ts`: at least 1 + MAX_RETRANSMIT timer calls, each at or
+    after the deadline then pending, `TimerRuns`), the request has concluded exactly once and the layer is idle.
+    The schedules the fairness hypothesis excludes are exactly D5 (empty ACK delivered, every copy of the separate
+    response lost: `d5_neither_witness`).  The full-strength form (no `NoLate`, conclusion ≥ 1) is `never_neither` below. -/
+theorem concludes_when_quiet_partial {req r : Dgram} (X : Exchange req r) (c0 : Client) (hidle : c0.L = Idle)
+    (hfresh : fresh c0 r) (now0 T : Nat) (es : List CEvent) (hes : ∀ e ∈ es, ExEv req r e)
+    (hlate : NoLate r (c0.appSend now0 req T).1 es)
+    (hfair : (∃ e ∈ es, isRsp r e) ∨ (∀ e ∈ es, ¬ isEAck req e))
+    (ts : List Nat) (hlen : 1 + maxRetransmit ≤ ts.length)
+    (hts : TimerRuns (Client.run c0 (.appSend now0 req T :: es)).1 ts) :
+    nRsp (Client.run c0 (.appSend now0 req T :: (es ++ ticks ts))).2 +
+      nNack (Client.run c0 (.appSend now0 req T :: (es ++ ticks ts))).2 = 1 ∧
+    (Client.run c0 (.appSend now0 req T :: (es ++ ticks ts))).1.L = Idle := by
+  obtain ⟨ph', hok', hr', hn', hw'⟩ := exchange_phase X c0 hidle hfresh now0 T es hes hlate
+  have hack : ph' = .acked → False := by
+    intro hp
+    subst hp
+    have hnr := hw' (Or.inr rfl)
+    rcases hfair with ⟨e, he, hie⟩ | hne
+    · exact hnr e he hie
+    · obtain ⟨ts0, hts0⟩ := all_ticks es hes hnr hne
+      subst hts0
+      have hs := appSend_Idle c0 now0 req T hidle X.hreq
+      rw [Client.run_cons] at hok' hn'
+      simp only [Client.step, nNack_append] at hok' hn'
+      rw [hs] at hok' hn'
+      obtain ⟨_, hany⟩ := run_ticks_any ts0 { c0 with L := Wt { d := req, timeout := T, cnt := 0, due := now0 + T * 2 ^ 0 } } _ rfl X.hreq
+      simp only [scoreN] at hn'
+      rcases hany with ⟨⟨n', c1, _⟩, _⟩ | ⟨_, c3⟩
+      · have := hok'.1
+        rw [c1] at this
+        simp [Wt, Idle] at this
+      · rw [c3] at hn'; simp at hn'
+  have happ : (CEvent.appSend now0 req T :: (es ++ ticks ts)) = (CEvent.appSend now0 req T :: es) ++ ticks ts := rfl
+  rw [happ, Client.run_append]
+  simp only [nRsp_append, nNack_append]
+  generalize Client.run c0 (.appSend now0 req T :: es) = R at hok' hr' hn' hts
+  have hidleCase : R.1.L = Idle → scoreR ph' + scoreN ph' = 1 →
+      nRsp R.2 + nRsp (Client.run R.1 (ticks ts)).2 + (nNack R.2 + nNack (Client.run R.1 (ticks ts)).2) = 1 ∧
+      (Client.run R.1 (ticks ts)).1.L = Idle := by
+    intro hI hsc
+    rw [run_ticks_Idle ts R.1 hI]
+    exact ⟨by simp; omega, hI⟩
+  cases ph' with
+  | waiting =>
+    obtain ⟨⟨n, hL, hn⟩, _⟩ := hok'
+    have hc : n.d.type = .con := by rw [hn]; exact X.hreq
+    simp only [maxRetransmit] at hlen
+    obtain ⟨b1, b2, b3⟩ := run_ticks_Wt ts R.1 n hL hc hts (by omega) (by omega)
+    simp only [scoreR, scoreN] at hr' hn'
+    exact ⟨by omega, b1⟩
+  | acked =>
+    -- an ACK must have arrived: excluded by fairness
+    exact (hack rfl).elim
+  | responded => exact hidleCase hok'.1 (by simp [scoreR, scoreN])
+  | nacked => exact hidleCase hok' (by simp [scoreR, scoreN])
+
+/-! ### the closed loop: client, network, server -/
+
+/-- the layer of the client during the exchange -/
+def CShape (req : Dgram) (c : Client) : Prop := c.L = Idle ∨ ∃ n, c.L = Wt n ∧ n.d = req
+
+theorem PhOk_shape {req r : Dgram} {ph : Ph} {c : Client} (h : PhOk req r ph c) : CShape req c := by
+  cases ph with
+  | waiting => exact Or.inr h.1
+  | acked => exact Or.inl h.1
+  | responded => exact Or.inl h.1
+  | nacked => exact Or.inl h
+
+/-- what the client transmits during the exchange: the request again (only from its timer), or the ACK / RST of the
+    response message -/
+theorem step_tx_shape {req r : Dgram} (X : Exchange req r) (c : Client) (hs : CShape req c) (e : CEvent)
+    (he : ExEv req r e) :
+    ∀ d, Out.tx d ∈ (c.step e).2 →
+      (d = req ∧ (∃ now, e = .tick now) ∧ c.L ≠ Idle) ∨ ((d.type = .ack ∨ d.type = .rst) ∧ d.mid = r.mid) := by
+  intro d hd
+  cases he with
+  | tick now =>
+    left
+    rcases hs with hL | ⟨n, hL, hn⟩
+    · rw [show c.step (.tick now) = c.tick now from rfl, tick_Idle_client c now hL] at hd
+      simp at hd
+    · have hc : n.d.type = .con := by rw [hn]; exact X.hreq
+      have hd' : Out.tx d ∈ (Layer.tickAll now (Wt n)).2 := by
+        have : (c.step (.tick now)).2 = (Layer.tickAll now c.L).2 := rfl
+        rw [this, hL] at hd; exact hd
+      rcases Layer.tick_Wt_outs now _ n hc _ hd' with h | h
+      · injection h with h
+        refine ⟨h.trans hn, ⟨now, rfl⟩, ?_⟩
+        rw [hL]; simp [Wt, Idle]
+      · cases h
+  | emptyAck now ok =>
+    exfalso
+    rcases hs with hL | ⟨n, hL, hn⟩
+    · rw [show c.step (.rx now (emptyAck req.mid) ok) = c.rx now (emptyAck req.mid) ok from rfl,
+        rx_emptyAck_Idle c now ok req.mid hL] at hd
+      simp at hd
+    · have := rx_emptyAck_Wt c now ok n hL
+      rw [hn] at this
+      rw [show c.step (.rx now (emptyAck req.mid) ok) = c.rx now (emptyAck req.mid) ok from rfl, this] at hd
+      simp at hd
+  | response now ok =>
+    rw [show c.step (.rx now r ok) = c.rx now r ok from rfl] at hd
+    rcases X.htype with ht | ht
+    · exfalso
+      rcases hs with hL | ⟨n, hL, hn⟩
+      · rw [rx_pb_Idle c now r ok hL ht X.hr] at hd
+        by_cases h : c.lastAck = some r.mid <;> simp [h] at hd
+      · rw [rx_pb_Wt c now r ok n hL ht X.hr (by rw [hn]; exact X.hpb ht)] at hd
+        by_cases h : c.lastAck = some r.mid <;> simp [h] at hd
+    · right
+      have hout : Out.tx d ∈ (if c.lastCon = some r.mid then (if c.lastResOk then ackFor r else rstFor r)
+          else Out.callResponse r ok :: (if ok then ackFor r else rstFor r)) := by
+        rcases hs with hL | ⟨n, hL, hn⟩
+        · rw [rx_con_Idle c now r ok hL ht X.hr] at hd
+          by_cases h : c.lastCon = some r.mid <;> simpa [h] using hd
+        · rw [rx_con_Wt c now r ok n hL ht X.hr (by rw [hn]; exact X.htok.symm) (by rw [hn]; exact X.hreq)] at hd
+          by_cases h : c.lastCon = some r.mid <;> simpa [h] using hd
+      have hk : ∀ b : Bool, Out.tx d ∈ (if b then ackFor r else rstFor r) → (d.type = .ack ∨ d.type = .rst) ∧ d.mid = r.mid := by
+        intro b hb
+        cases b
+        · simp [rstFor] at hb; subst hb; exact ⟨Or.inr rfl, rfl⟩
+        · simp [ackFor, ht] at hb; subst hb; exact ⟨Or.inl rfl, rfl⟩
+      by_cases h : c.lastCon = some r.mid
+      · simp only [h, if_true] at hout; exact hk _ hout
+      · simp only [h, if_false, List.mem_cons] at hout
+        rcases hout with h1 | h1
+        · cases h1
+        · exact hk _ h1
+
+/-- the datagrams in an output list, stamped with the time of transmission -/
+def txAt (now : Nat) : List Out → List (Nat × Dgram)
+  | [] => []
+  | .tx d :: o => (now, d) :: txAt now o
+  | _ :: o => txAt now o
+
+theorem mem_txAt {now : Nat} {p : Nat × Dgram} : ∀ {o : List Out}, p ∈ txAt now o ↔ p.1 = now ∧ Out.tx p.2 ∈ o := by
+  intro o
+  induction o with
+  | nil => simp [txAt]
+  | cons x o ih =>
+    cases x with
+    | tx d =>
+      simp only [txAt, List.mem_cons, ih, Out.tx.injEq]
+      constructor
+      · rintro (rfl | ⟨h1, h2⟩)
+        · exact ⟨rfl, Or.inl rfl⟩
+        · exact ⟨h1, Or.inr h2⟩
+      · rintro ⟨h1, h2 | h2⟩
+        · left; cases p; simp_all
+        · exact Or.inr ⟨h1, h2⟩
+    | callResponse d ok => simp [txAt, ih]
+    | callNack r m => simp [txAt, ih]
+    | callRequest m t => simp [txAt, ih]
+    | unmodelled => simp [txAt, ih]
+
+/-- client, server, the global clock, and everything either side has put on the network so far (with the time of
+    transmission): the network may deliver any of it, any number of times, or never -/
+structure Sys where
+  c : Client
+  s : Server
+  now : Nat
+  cLog : List (Nat × Dgram)
+  sLog : List (Nat × Dgram)
+
+inductive SysEv where
+  | cTick (now : Nat)                                  -- the client's timer (coap_io_prepare_io)
+  | sTick (now : Nat)                                  -- the server's timer
+  | sApp (now : Nat)                                   -- a server application timer
+  | toS (sent now : Nat) (d : Dgram)                   -- a copy of what the client transmitted at `sent` reaches the server
+  | toC (sent now : Nat) (d : Dgram) (ok : Bool)       -- a copy of what the server transmitted at `sent` reaches the client
+  deriving Repr
+
+def Sys.cStep (y : Sys) (now : Nat) (e : CEvent) : Sys × List Out :=
+  ({ y with c := (y.c.step e).1, now := now, cLog := y.cLog ++ txAt now (y.c.step e).2 }, (y.c.step e).2)
+
+def Sys.sStep (y : Sys) (now : Nat) (e : SEvent) : Sys × List Out :=
+  ({ y with s := (y.s.step e).1, now := now, sLog := y.sLog ++ txAt now (y.s.step e).2 }, [])
+
+/-- one event of the closed system; the second component is what the CLIENT did (handler calls, NACKs, transmissions) -/
+def Sys.step (y : Sys) : SysEv → Sys × List Out
+  | .cTick now => y.cStep now (.tick now)
+  | .toC _ now d ok => y.cStep now (.rx now d ok)
+  | .sTick now => y.sStep now (.tick now)
+  | .sApp now => y.sStep now (.app now)
+  | .toS _ now d => y.sStep now (.rx now d)
+
+def Sys.run (y : Sys) : List SysEv → Sys × List Out
+  | [] => (y, [])
+  | e :: es => (((y.step e).1.run es).1, (y.step e).2 ++ ((y.step e).1.run es).2)
+
+/-- the network and the clock: a datagram that is delivered was transmitted by the peer (any number of copies of it may
+    be delivered, or none: loss and duplication on every datagram) and every copy arrives less than `Δ` after the
+    transmission; the clock never runs backwards -/
+def Sys.Net (Δ : Nat) (y : Sys) : SysEv → Prop
+  | .toS sent now d => (sent, d) ∈ y.cLog ∧ y.now ≤ now ∧ now < sent + Δ
+  | .toC sent now d _ => (sent, d) ∈ y.sLog ∧ y.now ≤ now ∧ now < sent + Δ
+  | .cTick now => y.now ≤ now
+  | .sTick now => y.now ≤ now
+  | .sApp now => y.now ≤ now
+
+def Sys.RunOk (Δ : Nat) : Sys → List SysEv → Prop
+  | _, [] => True
+  | y, e :: es => y.Net Δ e ∧ Sys.RunOk Δ (y.step e).1 es
+
+/-- a copy of the response message is delivered to the client -/
+def isRspS (r : Dgram) : SysEv → Prop
+  | .toC _ _ d _ => d = r
+  | _ => False
+
+/-- no copy of the response is delivered after the client has given up (the closed-loop form of `NoLate`) -/
+def SysNoLate (r : Dgram) : Sys → List SysEv → Prop
+  | _, [] => True
+  | y, e :: es => (nNack (y.step e).2 > 0 → ∀ e' ∈ es, ¬ isRspS r e') ∧ SysNoLate r (y.step e).1 es
+
+/-- the system right after the application has sent `req` from an idle client -/
+def Sys.start (c0 : Client) (s0 : Server) (now0 : Nat) (req : Dgram) (T : Nat) : Sys :=
+  { c := (c0.appSend now0 req T).1, s := s0, now := now0, cLog := [(now0, req)], sLog := [] }
+
+/-- the joint invariant of the closed loop: the client is in one of the phases of the exchange, the server in one of
+    its, and the only datagrams ever put on the network are the request, the ACK / RST datagrams of the client, the
+    empty ACK of the server and THE response message -/
+structure J (req r : Dgram) (s0 : Server) (ph : Ph) (y : Sys) : Prop where
+  hc : PhOk req r ph y.c
+  hs : SInv s0 req y.s
+  hcl : ∀ p ∈ y.cLog, p.2 = req ∨ p.2.type = .ack ∨ p.2.type = .rst
+  hsl : ∀ p ∈ y.sLog, p.2 = r ∨ p.2 = emptyAck req.mid
+
+theorem exchange_of_server {s0 : Server} {req : Dgram} (hr : SReq req) (hp : s0.pers ≠ .dn) :
+    Exchange req (respFor s0 req) := by
+  refine ⟨hr.hcon, ?_, ?_, ?_, ?_⟩ <;> cases hpers : s0.pers <;> simp_all [respFor, isResponse]
+
+/-- a step of the client inside the closed loop -/
+theorem jstep_client {req r : Dgram} {s0 : Server} (X : Exchange req r) (ph : Ph) (y : Sys) (hj : J req r s0 ph y)
+    (now : Nat) (e : CEvent) (he : ExEv req r e) (hlate : ph = .nacked → ¬ isRsp r e) :
+    ∃ ph', J req r s0 ph' (y.cStep now e).1 ∧ scoreR ph' = scoreR ph + nRsp (y.cStep now e).2 ∧
+      scoreN ph' = scoreN ph + nNack (y.cStep now e).2 ∧ (isRsp r e → ph' = .responded) := by
+  obtain ⟨ph', h1, h2, h3, h4⟩ := step_ph X ph y.c hj.hc e he hlate
+  refine ⟨ph', ⟨h1, hj.hs, ?_, hj.hsl⟩, h2, h3, h4⟩
+  intro p hp
+  simp only [Sys.cStep, List.mem_append] at hp
+  rcases hp with hp | hp
+  · exact hj.hcl p hp
+  · have := (mem_txAt.mp hp).2
+    rcases step_tx_shape X y.c (PhOk_shape hj.hc) e he p.2 this with ⟨h, _⟩ | ⟨h, _⟩
+    · exact Or.inl h
+    · exact Or.inr h
+
+/-- a step of the server inside the closed loop -/
+theorem jstep_server {req r : Dgram} {s0 : Server} (hr : SReq req) (hq : SQuiet s0 req) (hrr : r = respFor s0 req)
+    (ph : Ph) (y : Sys) (hj : J req r s0 ph y) (now : Nat) (e : SEvent) (he : SExEv req e) :
+    J req r s0 ph (y.sStep now e).1 := by
+  obtain ⟨h1, h2⟩ := SInv_step hr hq y.s hj.hs e he
+  refine ⟨hj.hc, h1, hj.hcl, ?_⟩
+  intro p hp
+  simp only [Sys.sStep, List.mem_append] at hp
+  rcases hp with hp | hp
+  · exact hj.hsl p hp
+  · rw [hrr]; exact h2 p.2 (mem_txAt.mp hp).2
+
+/-- what the network delivers to the server is an event of the server's side of the exchange -/
+theorem toS_ok {req r : Dgram} {s0 : Server} {ph : Ph} {y : Sys} (hj : J req r s0 ph y) {sent : Nat} {d : Dgram}
+    (h : (sent, d) ∈ y.cLog) (now : Nat) : SExEv req (.rx now d) := by
+  rcases hj.hcl _ h with h | h
+  · simp only at h; subst h; exact .request now
+  · exact .reply now d h
+
+/-- what the network delivers to the client is an event of the client's side of the exchange -/
+theorem toC_ok {req r : Dgram} {s0 : Server} {ph : Ph} {y : Sys} (hj : J req r s0 ph y) {sent : Nat} {d : Dgram}
+    (h : (sent, d) ∈ y.sLog) (now : Nat) (ok : Bool) : ExEv req r (.rx now d ok) := by
+  rcases hj.hsl _ h with h | h
+  · simp only at h; subst h; exact .response now ok
+  · simp only at h; subst h; exact .emptyAck now ok
+
+/-- one event of the closed loop -/
+theorem jstep {req r : Dgram} {s0 : Server} (X : Exchange req r) (hr : SReq req) (hq : SQuiet s0 req)
+    (hrr : r = respFor s0 req) (Δ : Nat) (ph : Ph) (y : Sys) (hj : J req r s0 ph y) (e : SysEv) (hn : y.Net Δ e)
+    (hlate : ph = .nacked → ¬ isRspS r e) :
+    ∃ ph', J req r s0 ph' (y.step e).1 ∧ scoreR ph' = scoreR ph + nRsp (y.step e).2 ∧
+      scoreN ph' = scoreN ph + nNack (y.step e).2 ∧ (isRspS r e → ph' = .responded) := by
+  cases e with
+  | cTick now => exact jstep_client X ph y hj now (.tick now) (.tick now) (fun _ h => h)
+  | toC sent now d ok => exact jstep_client X ph y hj now (.rx now d ok) (toC_ok hj hn.1 now ok) hlate
+  | sTick now => exact ⟨ph, jstep_server hr hq hrr ph y hj now _ (.tick now), by simp [Sys.step, Sys.sStep], by simp [Sys.step, Sys.sStep], fun h => h.elim⟩
+  | sApp now => exact ⟨ph, jstep_server hr hq hrr ph y hj now _ (.app now), by simp [Sys.step, Sys.sStep], by simp [Sys.step, Sys.sStep], fun h => h.elim⟩
+  | toS sent now d => exact ⟨ph, jstep_server hr hq hrr ph y hj now _ (toS_ok hj hn.1 now), by simp [Sys.step, Sys.sStep], by simp [Sys.step, Sys.sStep], fun h => h.elim⟩
+
+/-- an arrival during the exchange leaves the layer idle and never calls the NACK handler; it never makes the client
+    transmit the request -/
+theorem rx_step_facts {req r : Dgram} (X : Exchange req r) (c : Client) (hs : CShape req c) (now : Nat) (d : Dgram)
+    (ok : Bool) (he : ExEv req r (.rx now d ok)) :
+    (c.step (.rx now d ok)).1.L = Idle ∧ nNack (c.step (.rx now d ok)).2 = 0 := by
+  generalize hev : CEvent.rx now d ok = e at he
+  cases he with
+  | tick now' => cases hev
+  | emptyAck now' ok' =>
+    rcases hs with hL | ⟨n, hL, hn⟩
+    · rw [show c.step (.rx now' (emptyAck req.mid) ok') = c.rx now' (emptyAck req.mid) ok' from rfl,
+        rx_emptyAck_Idle c now' ok' req.mid hL]
+      exact ⟨hL, rfl⟩
+    · have := rx_emptyAck_Wt c now' ok' n hL
+      rw [hn] at this
+      rw [show c.step (.rx now' (emptyAck req.mid) ok') = c.rx now' (emptyAck req.mid) ok' from rfl, this]
+      exact ⟨rfl, rfl⟩
+  | response now' ok' =>
+    rw [show c.step (.rx now' r ok') = c.rx now' r ok' from rfl]
+    rcases X.htype with ht | ht
+    · rcases hs with hL | ⟨n, hL, hn⟩
+      · rw [rx_pb_Idle c now' r ok' hL ht X.hr]
+        by_cases h : c.lastAck = some r.mid <;> simp [h, hL]
+      · rw [rx_pb_Wt c now' r ok' n hL ht X.hr (by rw [hn]; exact X.hpb ht)]
+        by_cases h : c.lastAck = some r.mid <;> simp [h]
+    · rcases hs with hL | ⟨n, hL, hn⟩
+      · rw [rx_con_Idle c now' r ok' hL ht X.hr]
+        by_cases h : c.lastCon = some r.mid
+        · cases c.lastResOk <;> simp [h, ackFor, rstFor, ht]
+        · cases ok' <;> simp [h, ackFor, rstFor, ht]
+      · rw [rx_con_Wt c now' r ok' n hL ht X.hr (by rw [hn]; exact X.htok.symm) (by rw [hn]; exact X.hreq)]
+        by_cases h : c.lastCon = some r.mid
+        · cases c.lastResOk <;> simp [h, ackFor, rstFor, ht]
+        · cases ok' <;> simp [h, ackFor, rstFor, ht]
+
+theorem ph_of_Wt {req r : Dgram} {ph : Ph} {c : Client} (h : PhOk req r ph c) {n : Node} (hL : c.L = Wt n) :
+    ph = .waiting ∧ n.d = req := by
+  cases ph with
+  | waiting =>
+    obtain ⟨⟨n', h1, h2⟩, _⟩ := h
+    rw [hL] at h1
+    rw [Layer.Wt_inj h1]; exact ⟨rfl, h2⟩
+  | acked => have := h.1; rw [hL] at this; simp [Wt, Idle] at this
+  | responded => have := h.1; rw [hL] at this; simp [Wt, Idle] at this
+  | nacked => have : c.L = Idle := h; rw [hL] at this; simp [Wt, Idle] at this
+
+theorem not_waiting_of_Idle {req r : Dgram} {ph : Ph} {c : Client} (h : PhOk req r ph c) (hL : c.L = Idle) :
+    ph ≠ .waiting := by
+  intro hp; subst hp
+  obtain ⟨⟨n', h1, _⟩, _⟩ := h
+  rw [hL] at h1; simp [Wt, Idle] at h1
+
+/-- the timing invariant of the closed loop with a server that answers on arrival (piggybacked response):
+    while the request waits, its deadline is the time of its last transmission plus `T·2^cnt`; after the NACK the
+    clock is at least `T·2^MAX_RETRANSMIT` past every transmission of the request; every copy of the response was
+    transmitted less than `Δ` after a transmission of the request -/
+structure TI (req r : Dgram) (T Δ : Nat) (ph : Ph) (y : Sys) : Prop where
+  hwait : ph = .waiting → ∃ n, y.c.L = Wt n ∧ n.timeout = T ∧ ∀ p ∈ y.cLog, p.2 = req → p.1 + T * 2 ^ n.cnt ≤ n.due
+  hnack : ph = .nacked → ∀ p ∈ y.cLog, p.2 = req → p.1 + T * 2 ^ maxRetransmit ≤ y.now
+  hsrv : ∀ q ∈ y.sLog, q.2 = r → ∃ p ∈ y.cLog, p.2 = req ∧ q.1 < p.1 + Δ
+  hpb : ph ≠ .acked                     -- a piggybacking server never sends an empty ACK …
+  hsl : ∀ q ∈ y.sLog, q.2 = r           -- … all it ever transmits is the response
+
+/-- after the NACK no copy of the response can still be on its way -/
+theorem no_late_arrival {req r : Dgram} {T Δ : Nat} {y : Sys} (ht : TI req r T Δ .nacked y)
+    (hΔ : 2 * Δ ≤ T * 2 ^ maxRetransmit) (e : SysEv) (hn : y.Net Δ e) : ¬ isRspS r e := by
+  intro hr
+  cases e with
+  | toC sent now d ok =>
+    simp only [isRspS] at hr
+    subst hr
+    obtain ⟨h1, h2, h3⟩ := hn
+    obtain ⟨p, hp, hpr, hlt⟩ := ht.hsrv _ h1 rfl
+    have := ht.hnack rfl p hp hpr
+    simp only at hlt
+    omega
+  | cTick now => exact hr
+  | sTick now => exact hr
+  | sApp now => exact hr
+  | toS sent now d => exact hr
+
+theorem nacked_of_score {ph : Ph} (h : scoreN .nacked = scoreN ph + 0) : ph = .nacked := by
+  cases ph <;> simp [scoreN] at h ⊢
+
+theorem acked_back {req r : Dgram} {ph : Ph} {c : Client} (hc : PhOk req r ph c) (hI : c.L = Idle)
+    (hR : scoreR .acked = scoreR ph + 0) (hN : scoreN .acked = scoreN ph + 0) : ph = .acked := by
+  cases ph with
+  | waiting => exact absurd rfl (not_waiting_of_Idle hc hI)
+  | acked => rfl
+  | responded => simp [scoreR] at hR
+  | nacked => simp [scoreN] at hN
+
+/-- the timing invariant over a step of the server -/
+theorem tstep_server {req r : Dgram} {s0 : Server} {T Δ : Nat} (ph : Ph) (y : Sys)
+    (hj : J req r s0 ph y) (ht : TI req r T Δ ph y) (now : Nat) (hnow : y.now ≤ now) (se : SEvent)
+    (hnew : ∀ d, Out.tx d ∈ (y.s.step se).2 → d = r → ∃ p ∈ y.cLog, p.2 = req ∧ now < p.1 + Δ)
+    (hnew' : ∀ d, Out.tx d ∈ (y.s.step se).2 → d = r)
+    (ph' : Ph) (hc' : PhOk req r ph' y.c) (hN : scoreN ph' = scoreN ph + 0) (hR : scoreR ph' = scoreR ph + 0) :
+    TI req r T Δ ph' (y.sStep now se).1 := by
+  refine ⟨?_, ?_, ?_, ?_, ?_⟩
+  · intro hp; subst hp
+    obtain ⟨⟨n, hL, _⟩, _⟩ := hc'
+    have := (ph_of_Wt hj.hc hL).1
+    exact ht.hwait this
+  · intro hp; subst hp
+    have := nacked_of_score hN
+    intro p hp hpr
+    have := ht.hnack this p hp hpr
+    simp only [Sys.sStep]; omega
+  · intro q hq hqr
+    simp only [Sys.sStep, List.mem_append] at hq
+    rcases hq with hq | hq
+    · exact ht.hsrv q hq hqr
+    · obtain ⟨h1, h2⟩ := mem_txAt.mp hq
+      obtain ⟨p, hp, hpr, hlt⟩ := hnew q.2 h2 hqr
+      exact ⟨p, hp, hpr, by rw [h1]; exact hlt⟩
+  · intro hp; subst hp
+    exact ht.hpb (acked_back hj.hc hc'.1 hR hN)
+  · intro q hq
+    simp only [Sys.sStep, List.mem_append] at hq
+    rcases hq with hq | hq
+    · exact ht.hsl q hq
+    · exact hnew' q.2 (mem_txAt.mp hq).2
+
+/-- the timing invariant over a step of the client that is an arrival -/
+theorem tstep_rx {req r : Dgram} {s0 : Server} (X : Exchange req r) {T Δ : Nat} (ph : Ph) (y : Sys)
+    (hj : J req r s0 ph y) (ht : TI req r T Δ ph y) (now : Nat) (hnow : y.now ≤ now) (d : Dgram) (ok : Bool)
+    (he : ExEv req r (.rx now d ok)) (hd : d = r)
+    (ph' : Ph) (hc' : PhOk req r ph' (y.c.step (.rx now d ok)).1)
+    (hN : scoreN ph' = scoreN ph + nNack (y.c.step (.rx now d ok)).2) (hR4 : d = r → ph' = .responded) :
+    TI req r T Δ ph' (y.cStep now (.rx now d ok)).1 := by
+  obtain ⟨hI, h0⟩ := rx_step_facts X y.c (PhOk_shape hj.hc) now d ok he
+  refine ⟨?_, ?_, ?_, (by rw [hR4 hd]; intro h; cases h), ht.hsl⟩
+  · intro hp
+    exact absurd hp (not_waiting_of_Idle hc' hI)
+  · intro hp; subst hp
+    rw [h0] at hN
+    have hph := nacked_of_score hN
+    intro p hp hpr
+    simp only [Sys.cStep, List.mem_append] at hp ⊢
+    rcases hp with hp | hp
+    · have := ht.hnack hph p hp hpr; omega
+    · have h2 := (mem_txAt.mp hp).2
+      rcases step_tx_shape X y.c (PhOk_shape hj.hc) _ he p.2 h2 with ⟨_, ⟨now', h⟩, _⟩ | ⟨h, _⟩
+      · cases h
+      · rw [hpr, X.hreq] at h; rcases h with h | h <;> cases h
+  · intro q hq hqr
+    obtain ⟨p, hp, hpr, hlt⟩ := ht.hsrv q hq hqr
+    exact ⟨p, by simp only [Sys.cStep]; exact List.mem_append_left _ hp, hpr, hlt⟩
+
+/-- the timing invariant over a step of the client's timer -/
+theorem tstep_tick {req r : Dgram} {s0 : Server} (X : Exchange req r) {T Δ : Nat} (hT : 0 < T) (ph : Ph) (y : Sys)
+    (hj : J req r s0 ph y) (ht : TI req r T Δ ph y) (now : Nat) (hnow : y.now ≤ now)
+    (ph' : Ph) (hc' : PhOk req r ph' (y.c.step (.tick now)).1)
+    (hN : scoreN ph' = scoreN ph + nNack (y.c.step (.tick now)).2)
+    (hR : scoreR ph' = scoreR ph + nRsp (y.c.step (.tick now)).2) :
+    TI req r T Δ ph' (y.cStep now (.tick now)).1 := by
+  have hsrv : ∀ q ∈ (y.cStep now (.tick now)).1.sLog, q.2 = r →
+      ∃ p ∈ (y.cStep now (.tick now)).1.cLog, p.2 = req ∧ q.1 < p.1 + Δ := by
+    intro q hq hqr
+    obtain ⟨p, hp, hpr, hlt⟩ := ht.hsrv q hq hqr
+    exact ⟨p, by simp only [Sys.cStep]; exact List.mem_append_left _ hp, hpr, hlt⟩
+  by_cases hph : ph = .waiting
+  · subst hph
+    obtain ⟨n, hL, hnT, hb⟩ := ht.hwait rfl
+    have hnd := (ph_of_Wt hj.hc hL).2
+    have hc : n.d.type = .con := by rw [hnd]; exact X.hreq
+    have hex := tick_Wt_explicit y.c now n hL hc (by rw [hnT]; exact hT)
+    have hstep : y.c.step (.tick now) = y.c.tick now := rfl
+    rw [hstep] at hc' hN hR
+    simp only [Sys.cStep, hstep]
+    by_cases hdue : n.due ≤ now
+    · by_cases hcnt : n.cnt < maxRetransmit
+      · simp only [hdue, hcnt, if_true] at hex
+        rw [hex] at hc' hN ⊢
+        refine ⟨?_, ?_, ?_, (by rw [(ph_of_Wt hc' rfl).1]; intro h; cases h), ht.hsl⟩
+        · intro _
+          refine ⟨_, rfl, hnT, ?_⟩
+          intro p hp hpr
+          simp only [txAt, List.mem_append, List.mem_singleton] at hp
+          rcases hp with hp | hp
+          · have := hb p hp hpr
+            have h2 : 0 < T * 2 ^ n.cnt := Nat.mul_pos hT (Nat.two_pow_pos _)
+            simp only [hnT]; omega
+          · subst hp; simp only [hnT]; omega
+        · intro hp; subst hp
+          simp [scoreN] at hN
+        · have := hsrv
+          simp only [Sys.cStep, hstep, hex] at this
+          exact this
+      · simp only [hdue, hcnt, if_true, if_false] at hex
+        rw [hex] at hc' hN ⊢
+        refine ⟨?_, ?_, ?_, (by intro hp; subst hp; simp [scoreN] at hN), ht.hsl⟩
+        · intro hp
+          exact absurd hp (not_waiting_of_Idle hc' rfl)
+        · intro _ p hp hpr
+          simp only [txAt, List.append_nil] at hp
+          have := hb p hp hpr
+          have hle : maxRetransmit ≤ n.cnt := by omega
+          have h2 : T * 2 ^ maxRetransmit ≤ T * 2 ^ n.cnt :=
+            Nat.mul_le_mul_left _ (Nat.pow_le_pow_right (by decide) hle)
+          simp only []; omega
+        · have := hsrv
+          simp only [Sys.cStep, hstep, hex] at this
+          exact this
+    · simp only [hdue, if_false] at hex
+      rw [hex] at hc' hN ⊢
+      refine ⟨?_, ?_, ?_, (by rw [(ph_of_Wt hc' hL).1]; intro h; cases h), ht.hsl⟩
+      · intro _
+        exact ⟨n, hL, hnT, by simpa [txAt] using hb⟩
+      · intro hp; subst hp
+        simp [scoreN] at hN
+      · have := hsrv
+        simp only [Sys.cStep, hstep, hex] at this
+        exact this
+  · have hI : y.c.L = Idle := by
+      cases ph with
+      | waiting => exact absurd rfl hph
+      | acked => exact hj.hc.1
+      | responded => exact hj.hc.1
+      | nacked => exact hj.hc
+    have hstep : y.c.step (.tick now) = (y.c, []) := tick_Idle_client y.c now hI
+    rw [hstep] at hc' hN hR
+    simp only [Sys.cStep, hstep]
+    refine ⟨?_, ?_, ?_, (by intro hp; subst hp; exact ht.hpb (acked_back hj.hc hI hR hN)), ht.hsl⟩
+    · intro hp
+      exact absurd hp (not_waiting_of_Idle hc' hI)
+    · intro hp; subst hp
+      have := nacked_of_score hN
+      intro p hp hpr
+      simp only [txAt, List.append_nil] at hp
+      have := ht.hnack this p hp hpr
+      simp only []; omega
+    · have := hsrv
+      simp only [Sys.cStep, hstep] at this
+      exact this
+
+/-- the timing invariant over one event of the closed loop with a piggybacking server -/
+theorem tstep {req r : Dgram} {s0 : Server} (X : Exchange req r) (hr : SReq req) (hq : SQuiet s0 req)
+    (hrr : r = respFor s0 req) (hp : s0.pers = .pb) {T Δ : Nat} (hT : 0 < T) (ph : Ph) (y : Sys)
+    (hj : J req r s0 ph y) (ht : TI req r T Δ ph y) (e : SysEv) (hn : y.Net Δ e)
+    (ph' : Ph) (hj' : J req r s0 ph' (y.step e).1) (hN : scoreN ph' = scoreN ph + nNack (y.step e).2)
+    (hR : scoreR ph' = scoreR ph + nRsp (y.step e).2) (hR4 : isRspS r e → ph' = .responded) :
+    TI req r T Δ ph' (y.step e).1 := by
+  cases e with
+  | cTick now => exact tstep_tick X hT ph y hj ht now hn ph' hj'.hc hN hR
+  | toC sent now d ok =>
+    exact tstep_rx X ph y hj ht now hn.2.1 d ok (toC_ok hj hn.1 now ok) (ht.hsl _ hn.1) ph' hj'.hc hN hR4
+  | sTick now =>
+    refine tstep_server ph y hj ht now hn (.tick now) ?_ ?_ ph' hj'.hc (by simpa [Sys.step, Sys.sStep] using hN)
+      (by simpa [Sys.step, Sys.sStep] using hR)
+    · intro d hd
+      exact absurd hd (SInv_step_pb hr hq hp y.s hj.hs _ (.tick now) (fun _ h => by cases h) d)
+    · intro d hd
+      exact absurd hd (SInv_step_pb hr hq hp y.s hj.hs _ (.tick now) (fun _ h => by cases h) d)
+  | sApp now =>
+    refine tstep_server ph y hj ht now hn (.app now) ?_ ?_ ph' hj'.hc (by simpa [Sys.step, Sys.sStep] using hN)
+      (by simpa [Sys.step, Sys.sStep] using hR)
+    · intro d hd
+      exact absurd hd (SInv_step_pb hr hq hp y.s hj.hs _ (.app now) (fun _ h => by cases h) d)
+    · intro d hd
+      exact absurd hd (SInv_step_pb hr hq hp y.s hj.hs _ (.app now) (fun _ h => by cases h) d)
+  | toS sent now d =>
+    refine tstep_server ph y hj ht now hn.2.1 (.rx now d) ?_ ?_ ph' hj'.hc (by simpa [Sys.step, Sys.sStep] using hN)
+      (by simpa [Sys.step, Sys.sStep] using hR)
+    · intro d' hd' _
+      by_cases hdr : d = req
+      · subst hdr
+        exact ⟨(sent, d), hn.1, rfl, hn.2.2⟩
+      · exact absurd hd' (SInv_step_pb hr hq hp y.s hj.hs _ (toS_ok hj hn.1 now)
+          (fun now' h => by injection h with _ h2; exact hdr h2) d')
+    · intro d' hd'
+      by_cases hdr : d = req
+      · subst hdr
+        rw [SInv_step_pb_request hr hq hp y.s hj.hs now] at hd'
+        simp only [List.mem_cons, List.mem_nil_iff, or_false] at hd'
+        rcases hd' with hd' | hd'
+        · cases hd'
+        · injection hd' with hd'; rw [hd', hrr]
+      · exact absurd hd' (SInv_step_pb hr hq hp y.s hj.hs _ (toS_ok hj hn.1 now)
+          (fun now' h => by injection h with _ h2; exact hdr h2) d')
+
+theorem Sys.run_cons (y : Sys) (e : SysEv) (es : List SysEv) :
+    y.run (e :: es) = (((y.step e).1.run es).1, (y.step e).2 ++ ((y.step e).1.run es).2) := rfl
+
+/-- all runs of the closed loop (any server personality that answers with one response message), given that no copy
+    of the response is delivered after the client has given up -/
+theorem sys_run {req r : Dgram} {s0 : Server} (X : Exchange req r) (hr : SReq req) (hq : SQuiet s0 req)
+    (hrr : r = respFor s0 req) (Δ : Nat) :
+    ∀ (es : List SysEv) (ph : Ph) (y : Sys), J req r s0 ph y → y.RunOk Δ es → SysNoLate r y es →
+      (ph = .nacked → ∀ e ∈ es, ¬ isRspS r e) →
+      ∃ ph', J req r s0 ph' (y.run es).1 ∧ scoreR ph' = scoreR ph + nRsp (y.run es).2 ∧
+        scoreN ph' = scoreN ph + nNack (y.run es).2 ∧
+        ((ph' = .waiting ∨ ph' = .acked) → ∀ e ∈ es, ¬ isRspS r e) := by
+  intro es
+  induction es with
+  | nil => intro ph y hj _ _ _; exact ⟨ph, hj, by simp [Sys.run], by simp [Sys.run], by simp⟩
+  | cons e es ih =>
+    intro ph y hj hok hnl hna
+    obtain ⟨ph1, hj1, hr1, hn1, hrsp1⟩ :=
+      jstep X hr hq hrr Δ ph y hj e hok.1 (fun h => hna h e (List.mem_cons_self ..))
+    have hna1 : ph1 = .nacked → ∀ e' ∈ es, ¬ isRspS r e' := by
+      intro h1
+      by_cases hp : ph = .nacked
+      · intro e' he'; exact hna hp e' (List.mem_cons_of_mem _ he')
+      · have : nNack (y.step e).2 > 0 := by
+          rw [h1] at hn1
+          cases ph <;> simp [scoreN] at hn1 hp ⊢ <;> omega
+        exact hnl.1 this
+    obtain ⟨ph2, hj2, hr2, hn2, hw2⟩ := ih ph1 (y.step e).1 hj1 hok.2 hnl.2 hna1
+    refine ⟨ph2, ?_, ?_, ?_, ?_⟩
+    · rw [Sys.run_cons]; exact hj2
+    · rw [Sys.run_cons]; simp only [nRsp_append]; omega
+    · rw [Sys.run_cons]; simp only [nNack_append]; omega
+    · intro hw e' he'
+      rcases List.mem_cons.mp he' with rfl | hmem
+      · intro hisr
+        have h1 := hrsp1 hisr
+        rw [h1] at hr2
+        rcases hw with hw | hw <;> rw [hw] at hr2 <;> simp [scoreR] at hr2 <;> omega
+      · exact hw2 hw e' hmem
+
+/-- all runs of the closed loop with a piggybacking server and network delays below `Δ`, `2Δ ≤ T·2^MAX_RETRANSMIT`:
+    the timing invariant makes a late copy of the response impossible -/
+theorem sys_run_pb {req r : Dgram} {s0 : Server} (X : Exchange req r) (hr : SReq req) (hq : SQuiet s0 req)
+    (hrr : r = respFor s0 req) (hp : s0.pers = .pb) {T Δ : Nat} (hT : 0 < T) (hΔ : 2 * Δ ≤ T * 2 ^ maxRetransmit) :
+    ∀ (es : List SysEv) (ph : Ph) (y : Sys), J req r s0 ph y → TI req r T Δ ph y → y.RunOk Δ es →
+      ∃ ph', J req r s0 ph' (y.run es).1 ∧ scoreR ph' = scoreR ph + nRsp (y.run es).2 ∧
+        scoreN ph' = scoreN ph + nNack (y.run es).2 ∧
+        ((ph' = .waiting ∨ ph' = .acked) → ∀ e ∈ es, ¬ isRspS r e) ∧ ph' ≠ .acked := by
+  intro es
+  induction es with
+  | nil => intro ph y hj ht _; exact ⟨ph, hj, by simp [Sys.run], by simp [Sys.run], by simp, ht.hpb⟩
+  | cons e es ih =>
+    intro ph y hj ht hok
+    obtain ⟨ph1, hj1, hr1, hn1, hrsp1⟩ :=
+      jstep X hr hq hrr Δ ph y hj e hok.1 (fun h => by subst h; exact no_late_arrival ht hΔ e hok.1)
+    have ht1 := tstep X hr hq hrr hp hT ph y hj ht e hok.1 ph1 hj1 hn1 hr1 hrsp1
+    obtain ⟨ph2, hj2, hr2, hn2, hw2, hna2⟩ := ih ph1 (y.step e).1 hj1 ht1 hok.2
+    refine ⟨ph2, ?_, ?_, ?_, ?_, hna2⟩
+    · rw [Sys.run_cons]; exact hj2
+    · rw [Sys.run_cons]; simp only [nRsp_append]; omega
+    · rw [Sys.run_cons]; simp only [nNack_append]; omega
+    · intro hw e' he'
+      rcases List.mem_cons.mp he' with rfl | hmem
+      · intro hisr
+        have h1 := hrsp1 hisr
+        rw [h1] at hr2
+        rcases hw with hw | hw <;> rw [hw] at hr2 <;> simp [scoreR] at hr2 <;> omega
+      · exact hw2 hw e' hmem
+
+theorem start_J {req : Dgram} {s0 : Server} (hr : SReq req) (hq : SQuiet s0 req) (c0 : Client) (hidle : c0.L = Idle)
+    (hfresh : fresh c0 (respFor s0 req)) (now0 T : Nat) :
+    J req (respFor s0 req) s0 .waiting (Sys.start c0 s0 now0 req T) := by
+  have hs := appSend_Idle c0 now0 req T hidle hr.hcon
+  refine ⟨?_, SInv_init hq, ?_, ?_⟩
+  · simp only [Sys.start]; rw [hs]; exact ⟨⟨_, rfl, rfl⟩, hfresh⟩
+  · intro p hp; simp only [Sys.start, List.mem_singleton] at hp; subst hp; exact Or.inl rfl
+  · intro p hp; simp [Sys.start] at hp
+
+theorem start_TI {req r : Dgram} {s0 : Server} (hr : SReq req) (c0 : Client) (hidle : c0.L = Idle)
+    (now0 T Δ : Nat) : TI req r T Δ .waiting (Sys.start c0 s0 now0 req T) := by
+  have hs := appSend_Idle c0 now0 req T hidle hr.hcon
+  refine ⟨?_, (fun h => by cases h), ?_, (fun h => by cases h), (fun q hq => by simp [Sys.start] at hq)⟩
+  · intro _
+    refine ⟨{ d := req, timeout := T, cnt := 0, due := now0 + T * 2 ^ 0 }, ?_, rfl, ?_⟩
+    · simp only [Sys.start]; rw [hs]
+    · intro p hp _; simp only [Sys.start, List.mem_singleton] at hp; subst hp; exact Nat.le_refl _
+  · intro q hq; simp [Sys.start] at hq
+
+/-- conclusions from the final phase -/
+theorem conclude_of_phase {req r : Dgram} {s0 : Server} {ph' : Ph} {y : Sys} {o : List Out} {es : List SysEv}
+    (hj : J req r s0 ph' y) (hr' : scoreR ph' = scoreR .waiting + nRsp o) (hn' : scoreN ph' = scoreN .waiting + nNack o)
+    (hw' : (ph' = .waiting ∨ ph' = .acked) → ∀ e ∈ es, ¬ isRspS r e) :
+    nRsp o + nNack o ≤ 1 ∧ (y.c.L.sendq = [] → nRsp o + nNack o = 1 ∨ ∀ e ∈ es, ¬ isRspS r e) := by
+  refine ⟨?_, ?_⟩
+  · cases ph' <;> simp [scoreR, scoreN] at hr' hn' <;> omega
+  · intro hq
+    cases ph' with
+    | waiting =>
+      obtain ⟨⟨n, hL, _⟩, _⟩ := hj.hc
+      rw [hL] at hq; simp [Wt] at hq
+    | acked => right; exact hw' (Or.inr rfl)
+    | responded => left; simp [scoreR, scoreN] at hr' hn'; omega
+    | nacked => left; simp [scoreR, scoreN] at hr' hn'; omega
+
+/-- **The de-duplicating server personalities answer one request with ONE response message** (side condition D2 of
+    `exactly_once_partial`, proved for the model of the server): a server that is quiet, has not seen the request's
+    token, and either piggybacks or de-duplicates requests at application level (`ac+`, `at+`, `dc+`, `dn+`)
+    transmits — for EVERY interleaving of copies of the request, ACK / RST datagrams, timer steps and application
+    timers, at any times — no response other than copies of `respFor s0 req` (plus copies of the empty ACK). -/
+theorem server_one_response_message {s0 : Server} {req : Dgram} (hr : SReq req) (hq : SQuiet s0 req)
+    (es : List SEvent) (hes : ∀ e ∈ es, SExEv req e) :
+    ∀ d, Out.tx d ∈ (Server.run s0 es).2 → isResponse d.code = true → d = respFor s0 req := by
+  intro d hd hc
+  rcases (server_run_one_response hr hq es hes).2 d hd with h | h
+  · exact h
+  · rw [h] at hc; simp [emptyAck, isResponse] at hc
+
+/-- without application-level de-duplication the pinned server answers a late copy of the request with a second
+    response message (libcoap keeps no request de-duplication state; open finding `unsolicited_response_delivered`) -/
+theorem server_without_dedup_witness :
+    let s0 : Server := { pers := .ac, dedup := false, D := 300, T := 2500, txMid := 5000 }
+    let req : Dgram := { type := .con, code := 1, mid := 1001, token := [0xc0, 7] }
+    let es : List SEvent := [.rx 1000 req, .tick 1300, .rx 1500 (emptyAck 5001), .rx 3100 req, .tick 3400]
+    (∀ e ∈ es, SExEv req e) ∧
+    ¬ (∀ d, Out.tx d ∈ (Server.run s0 es).2 → d = respFor s0 req ∨ d = emptyAck req.mid) := by
+  have h := server_without_dedup_two_responses_witness
+  exact ⟨h.2.2.2.2.2.1, h.2.2.2.2.2.2.2⟩
+
+/-- **exactly once in the closed loop** — partial.  Client, network and server composed: the network delivers only
+    what the peer transmitted (every datagram may be lost, duplicated any number of times, delayed), the server is
+    any personality that piggybacks or de-duplicates (D2 is now PROVED, not assumed: `server_one_response_message`
+    through the joint invariant `J`), the response is an ACK or a CON.  Remaining hypothesis `SysNoLate`: no copy of
+    the response is delivered after the client has given up — for separate responses it does NOT follow from delays
+    < ACK_TIMEOUT (the server retransmits its response for up to 31·T_server after the client's last request copy:
+    `late_response_after_nack_witness`, open finding `unsolicited_response_delivered`); for piggybacked responses it
+    does: `exactly_once_piggybacked`.  Full statement wanted: the same without `SysNoLate` and without `SQuiet.hdedup`;
+    false for the pinned code. -/
+theorem exactly_once_closed_loop_partial {req : Dgram} (hr : SReq req) (s0 : Server) (hq : SQuiet s0 req)
+    (hp : s0.pers ≠ .dn) (c0 : Client) (hidle : c0.L = Idle) (hfresh : fresh c0 (respFor s0 req))
+    (now0 T Δ : Nat) (es : List SysEv) (hok : (Sys.start c0 s0 now0 req T).RunOk Δ es)
+    (hlate : SysNoLate (respFor s0 req) (Sys.start c0 s0 now0 req T) es) :
+    nRsp ((Sys.start c0 s0 now0 req T).run es).2 + nNack ((Sys.start c0 s0 now0 req T).run es).2 ≤ 1 ∧
+    (((Sys.start c0 s0 now0 req T).run es).1.c.L.sendq = [] →
+      nRsp ((Sys.start c0 s0 now0 req T).run es).2 + nNack ((Sys.start c0 s0 now0 req T).run es).2 = 1 ∨
+      ∀ e ∈ es, ¬ isRspS (respFor s0 req) e) := by
+  obtain ⟨ph', hj, h1, h2, h3⟩ := sys_run (exchange_of_server hr hp) hr hq rfl Δ es .waiting _
+    (start_J hr hq c0 hidle hfresh now0 T) hok hlate (fun h => by cases h)
+  exact conclude_of_phase hj h1 h2 h3
+
+/-- **exactly once, piggybacked response, network delays below ACK_TIMEOUT** — full strength, no `NoLate`, D2 proved:
+    for EVERY run of the closed loop (client, lossy / duplicating / delaying network, piggybacking server, clocks) in
+    which each delivered copy arrives less than `Δ` after its transmission, `2Δ ≤ T·2^MAX_RETRANSMIT` (in particular
+    `Δ = ACK_TIMEOUT ≤ T`), the request concludes at most once (never both, never twice), and exactly once when the
+    client is quiet at the end unless no copy of the response was ever delivered.  The timed argument: the NACK comes
+    no earlier than `T·2^MAX_RETRANSMIT` after the LAST transmission of the request (invariant `TI`, from the
+    retransmission schedule `tick_Wt_explicit`), every copy of the response was transmitted less than `Δ` after the
+    arrival of a copy of the request transmitted at most `Δ` earlier, so it arrives before the NACK. -/
+theorem exactly_once_piggybacked {req : Dgram} (hr : SReq req) (s0 : Server) (hq : SQuiet s0 req)
+    (hp : s0.pers = .pb) (c0 : Client) (hidle : c0.L = Idle) (hfresh : fresh c0 (respFor s0 req))
+    (now0 T Δ : Nat) (hT : 0 < T) (hΔ : 2 * Δ ≤ T * 2 ^ maxRetransmit) (es : List SysEv)
+    (hok : (Sys.start c0 s0 now0 req T).RunOk Δ es) :
+    nRsp ((Sys.start c0 s0 now0 req T).run es).2 + nNack ((Sys.start c0 s0 now0 req T).run es).2 ≤ 1 ∧
+    (((Sys.start c0 s0 now0 req T).run es).1.c.L.sendq = [] →
+      nRsp ((Sys.start c0 s0 now0 req T).run es).2 + nNack ((Sys.start c0 s0 now0 req T).run es).2 = 1 ∨
+      ∀ e ∈ es, ¬ isRspS (respFor s0 req) e) := by
+  have hnd : s0.pers ≠ .dn := by rw [hp]; decide
+  obtain ⟨ph', hj, h1, h2, h3, _⟩ := sys_run_pb (exchange_of_server hr hnd) hr hq rfl hp hT hΔ es .waiting _
+    (start_J hr hq c0 hidle hfresh now0 T) (start_TI hr c0 hidle now0 T Δ) hok
+  exact conclude_of_phase hj h1 h2 h3
+
+/-- the same with the library's own parameters: the client's timeout is `coap_calc_timeout` of any PRNG byte
+    (≥ ACK_TIMEOUT) and every network delay is shorter than ACK_TIMEOUT -/
+theorem exactly_once_piggybacked_default {req : Dgram} (hr : SReq req) (s0 : Server) (hq : SQuiet s0 req)
+    (hp : s0.pers = .pb) (c0 : Client) (hidle : c0.L = Idle) (hfresh : fresh c0 (respFor s0 req))
+    (now0 b : Nat) (es : List SysEv)
+    (hok : (Sys.start c0 s0 now0 req (calcTimeout b)).RunOk ackTimeout es) :
+    nRsp ((Sys.start c0 s0 now0 req (calcTimeout b)).run es).2 +
+      nNack ((Sys.start c0 s0 now0 req (calcTimeout b)).run es).2 ≤ 1 ∧
+    (((Sys.start c0 s0 now0 req (calcTimeout b)).run es).1.c.L.sendq = [] →
+      nRsp ((Sys.start c0 s0 now0 req (calcTimeout b)).run es).2 +
+        nNack ((Sys.start c0 s0 now0 req (calcTimeout b)).run es).2 = 1 ∨
+      ∀ e ∈ es, ¬ isRspS (respFor s0 req) e) := by
+  have h := (calcTimeout_ge b).1
+  refine exactly_once_piggybacked hr s0 hq hp c0 hidle hfresh now0 (calcTimeout b) ackTimeout ?_ ?_ es hok
+  · simp only [ackTimeout] at h; omega
+  · simp only [ackTimeout, maxRetransmit] at h ⊢; omega
+
+/-- **exactly once, piggybacked response: never neither** — a piggybacking server never sends an empty ACK, so the
+    D5 situation cannot arise: whenever the client is quiet at the end of a run of the closed loop (send queue empty:
+    nothing left to retransmit), the request HAS concluded, exactly once — with no side condition at all (the first
+    conjunct of `exactly_once_piggybacked` gives "at most once" for every run, quiet or not). -/
+theorem exactly_once_piggybacked_quiet {req : Dgram} (hr : SReq req) (s0 : Server) (hq : SQuiet s0 req)
+    (hp : s0.pers = .pb) (c0 : Client) (hidle : c0.L = Idle) (hfresh : fresh c0 (respFor s0 req))
+    (now0 T Δ : Nat) (hT : 0 < T) (hΔ : 2 * Δ ≤ T * 2 ^ maxRetransmit) (es : List SysEv)
+    (hok : (Sys.start c0 s0 now0 req T).RunOk Δ es)
+    (hquiet : ((Sys.start c0 s0 now0 req T).run es).1.c.L.sendq = []) :
+    nRsp ((Sys.start c0 s0 now0 req T).run es).2 + nNack ((Sys.start c0 s0 now0 req T).run es).2 = 1 := by
+  have hnd : s0.pers ≠ .dn := by rw [hp]; decide
+  obtain ⟨ph', hj, h1, h2, _, h4⟩ := sys_run_pb (exchange_of_server hr hnd) hr hq rfl hp hT hΔ es .waiting _
+    (start_J hr hq c0 hidle hfresh now0 T) (start_TI hr c0 hidle now0 T Δ) hok
+  cases ph' with
+  | waiting =>
+    obtain ⟨⟨n, hL, _⟩, _⟩ := hj.hc
+    rw [hL] at hquiet; simp [Wt] at hquiet
+  | acked => exact absurd rfl h4
+  | responded => simp [scoreR, scoreN] at h1 h2; omega
+  | nacked => simp [scoreR, scoreN] at h1 h2; omega
+
+/-! ### whole runs: every Confirmable response is acknowledged, duplicates are not re-delivered -/
+
+theorem LOk_delayq {L : Layer} (h : LOk L) : L.delayq = [] := by
+  rcases h with rfl | ⟨n, rfl, _⟩ <;> rfl
+
+/-- **Every Confirmable response received in a run is acknowledged, exactly once each** (whole runs, D1): for every
+    run in which the application sends a Confirmable request only when no exchange is outstanding — ANY datagrams
+    arriving at ANY time, any timer steps — the message ids of the ACK / RST datagrams the client transmits are, in
+    order, exactly the message ids of the Confirmable responses it received (duplicates included: acknowledged
+    again) and of the Non-confirmable responses its handler FAILed; no other ACK or RST is ever sent. -/
+theorem run_con_responses_acked (c : Client) (es : List CEvent) (hL : LOk c.L) (h : RunD1 c es) :
+    replies (Client.run c es).2 = owed es := run_replies es c hL h
+
+/-- **… and the ACK / RST follows the datagram immediately**: wherever in a run a Confirmable response arrives, the
+    client's output at that point is `[handler call?] ++ [one ACK or RST with its mid]`; the handler call is absent
+    iff the previous Confirmable response received in the run (however long ago) carried the same message id
+    (**a duplicate is not re-delivered**, run form). -/
+theorem run_con_response_acked_at (c : Client) (pre post : List CEvent) (now : Nat) (d : Dgram) (ok : Bool)
+    (hL : LOk c.L) (h : RunD1 c (pre ++ .rx now d ok :: post)) (hd : d.type = .con) (hr : isResponse d.code = true) :
+    ∃ k, (k = MType.ack ∨ k = MType.rst) ∧
+      (Client.run c (pre ++ .rx now d ok :: post)).2 =
+        (Client.run c pre).2 ++
+        ((if lastConAfter c.lastCon pre = some d.mid then [] else [Out.callResponse d ok]) ++
+          [Out.tx { type := k, code := 0, mid := d.mid, token := [] }]) ++
+        (Client.run ((Client.run c pre).1.rx now d ok).1 post).2 := by
+  have h1 := ((RunD1_append pre _ c).mp h).1
+  have hL1 := run_LOk pre c hL h1
+  obtain ⟨k, hk, hout⟩ := con_response_always_acked (Client.run c pre).1 now d ok (LOk_delayq hL1) hd hr
+  refine ⟨k, hk, ?_⟩
+  rw [Client.run_append, Client.run_cons]
+  simp only [Client.step]
+  rw [hout, run_lastCon pre c hL h1]
+  simp only [List.append_assoc]
+
+/-- **A duplicate is not re-delivered; a Non-confirmable message is delivered once per datagram** (whole runs, D1):
+    the handler calls of the whole run are exactly those the single-slot filter lets through, as a function of the
+    received datagrams alone — a CON (piggybacked) response unless its mid equals that of the previous CON
+    (piggybacked) response, and every NON response. -/
+theorem run_duplicates_not_redelivered (c : Client) (es : List CEvent) (hL : LOk c.L) (h : RunD1 c es) :
+    handlerCalls (Client.run c es).2 = expectedCalls c.lastCon c.lastAck es := run_handlerCalls es c hL h
+
+/-! ### the hypotheses of the new theorems are satisfiable (concrete non-trivial instances, by evaluation) -/
+
+instance (Δ : Nat) (y : Sys) : (e : SysEv) → Decidable (y.Net Δ e)
+  | .toS sent now d => inferInstanceAs (Decidable ((sent, d) ∈ y.cLog ∧ y.now ≤ now ∧ now < sent + Δ))
+  | .toC sent now d _ => inferInstanceAs (Decidable ((sent, d) ∈ y.sLog ∧ y.now ≤ now ∧ now < sent + Δ))
+  | .cTick now => inferInstanceAs (Decidable (y.now ≤ now))
+  | .sTick now => inferInstanceAs (Decidable (y.now ≤ now))
+  | .sApp now => inferInstanceAs (Decidable (y.now ≤ now))
+
+instance decRunOk (Δ : Nat) : (y : Sys) → (es : List SysEv) → Decidable (y.RunOk Δ es)
+  | _, [] => isTrue trivial
+  | y, e :: es => @instDecidableAnd (y.Net Δ e) (Sys.RunOk Δ (y.step e).1 es) inferInstance (decRunOk Δ (y.step e).1 es)
+
+instance (r : Dgram) : (e : SysEv) → Decidable (isRspS r e)
+  | .toC _ _ d _ => inferInstanceAs (Decidable (d = r))
+  | .toS _ _ _ => isFalse (fun h => h)
+  | .cTick _ => isFalse (fun h => h)
+  | .sTick _ => isFalse (fun h => h)
+  | .sApp _ => isFalse (fun h => h)
+
+instance decSysNoLate (r : Dgram) : (y : Sys) → (es : List SysEv) → Decidable (SysNoLate r y es)
+  | _, [] => isTrue trivial
+  | y, e :: es =>
+    @instDecidableAnd (nNack (y.step e).2 > 0 → ∀ e' ∈ es, ¬ isRspS r e') (SysNoLate r (y.step e).1 es) inferInstance
+      (decSysNoLate r (y.step e).1 es)
+
+instance decTimerRuns : (c : Client) → (ts : List Nat) → Decidable (TimerRuns c ts)
+  | _, [] => isTrue trivial
+  | c, t :: ts => @instDecidableAnd (∀ n ∈ c.L.sendq, n.due ≤ t) (TimerRuns (c.tick t).1 ts) inferInstance
+      (decTimerRuns (c.tick t).1 ts)
+
+def wPb : Server := { pers := .pb, dedup := false, D := 0, T := 2500, txMid := 5000 }
+def wAc : Server := { pers := .ac, dedup := true, D := 300, T := 2500, txMid := 5000 }
+
+/-- `exactly_once_piggybacked`, `exactly_once_piggybacked_quiet`: the first copy of the request reaches the server but its response is lost, the client
+    retransmits at 3000, that copy is answered, the response arrives twice (duplicated, the second copy 1800 ms
+    late), the timer keeps running: every hypothesis holds with Δ = ACK_TIMEOUT, one handler call, no NACK -/
+example :
+    let es : List SysEv := [.toS 1000 1500 wReq, .cTick 3000, .toS 3000 3100 wReq,
+                            .toC 3100 3300 (respFor wPb wReq) true, .toC 3100 4900 (respFor wPb wReq) true, .cTick 9000]
+    SReq wReq ∧ SQuiet wPb wReq ∧ fresh {} (respFor wPb wReq) ∧ 2 * ackTimeout ≤ 2000 * 2 ^ maxRetransmit ∧
+    (Sys.start {} wPb 1000 wReq 2000).RunOk ackTimeout es ∧
+    nRsp ((Sys.start {} wPb 1000 wReq 2000).run es).2 = 1 ∧ nNack ((Sys.start {} wPb 1000 wReq 2000).run es).2 = 0 ∧
+    ((Sys.start {} wPb 1000 wReq 2000).run es).1.c.L.sendq = [] := by
+  refine ⟨⟨by decide, by decide⟩, ⟨by decide, by decide, by decide, by decide, by decide⟩,
+    ⟨fun _ => by decide, fun _ => by decide⟩, by decide, by decide, by decide, by decide, by decide⟩
+
+/-- `exactly_once_closed_loop_partial`: the de-duplicating async server `ac+`: request, empty ACK, the async fires at
+    1400, the separate response arrives, is acknowledged, the ACK reaches the server, a duplicate of the response
+    arrives later and is acknowledged again but not re-delivered -/
+example :
+    let r := respFor wAc wReq
+    let es : List SysEv := [.toS 1000 1100 wReq, .toC 1100 1200 (emptyAck 1001) true, .sTick 1400, .toC 1400 1500 r true,
+                            .toS 1500 1600 (emptyAck 5001), .toC 1400 1700 r true, .sTick 5000, .cTick 5000]
+    SReq wReq ∧ SQuiet wAc wReq ∧ wAc.pers ≠ .dn ∧ fresh {} r ∧
+    (Sys.start {} wAc 1000 wReq 2000).RunOk ackTimeout es ∧ SysNoLate r (Sys.start {} wAc 1000 wReq 2000) es ∧
+    nRsp ((Sys.start {} wAc 1000 wReq 2000).run es).2 = 1 ∧ nNack ((Sys.start {} wAc 1000 wReq 2000).run es).2 = 0 ∧
+    ((Sys.start {} wAc 1000 wReq 2000).run es).1.cLog.length = 3 := by
+  refine ⟨⟨by decide, by decide⟩, ⟨by decide, by decide, by decide, by decide, by decide⟩, by decide,
+    ⟨fun _ => by decide, fun _ => by decide⟩, by decide, by decide, by decide, by decide, by decide⟩
+
+/-- `concludes_when_quiet_partial`: every datagram is lost (no ACK ever arrives), the clock runs: the request is
+    retransmitted four times and concludes by exactly one NACK -/
+example :
+    let es : List CEvent := [.tick 2000, .tick 3000]
+    let ts : List Nat := [7000, 15000, 31000, 63000, 70000]
+    Exchange wReq (wRsp 5001) ∧ (∀ e ∈ es, ExEv wReq (wRsp 5001) e) ∧ (∀ e ∈ es, ¬ isEAck wReq e) ∧
+    1 + maxRetransmit ≤ ts.length ∧ TimerRuns (Client.run {} (.appSend 1000 wReq 2000 :: es)).1 ts ∧
+    nNack (Client.run {} (.appSend 1000 wReq 2000 :: (es ++ ticks ts))).2 = 1 ∧
+    nTx wReq (Client.run {} (.appSend 1000 wReq 2000 :: (es ++ ticks ts))).2 = 5 := by
+  refine ⟨⟨rfl, by decide, rfl, Or.inr rfl, fun h => by cases h⟩, ?_, ?_, by decide, by decide, by decide, by decide⟩
+  · intro e he
+    simp only [List.mem_cons, List.mem_nil_iff, or_false] at he
+    rcases he with rfl | rfl <;> exact .tick _
+  · intro e he
+    simp only [List.mem_cons, List.mem_nil_iff, or_false] at he
+    rcases he with rfl | rfl <;> exact fun h => h
+
+/-- D5, the case the fairness hypothesis of `concludes_when_quiet_partial` excludes: the empty ACK arrived, every copy
+    of the separate response was lost — the client has nothing left to retransmit and the request stays open -/
+theorem d5_neither_witness :
+    let o := (Client.run {} (.appSend 1000 wReq 2000 :: .rx 1100 (emptyAck 1001) true :: ticks [3000, 7000, 15000, 31000, 63000, 99000])).2
+    nRsp o = 0 ∧ nNack o = 0 := by decide
+
+/-- `run_con_response_acked_at`: a retransmission, the separate response, a timer step, its duplicate -/
+example :
+    let pre : List CEvent := [.appSend 1000 wReq 2000, .tick 3000, .rx 3500 (wRsp 5001) true, .tick 4000]
+    LOk ({} : Client).L ∧ RunD1 {} (pre ++ .rx 5500 (wRsp 5001) true :: [.tick 6000]) ∧
+    lastConAfter none pre = some 5001 ∧
+    replies (Client.run {} (pre ++ .rx 5500 (wRsp 5001) true :: [.tick 6000])).2 = [5001, 5001] ∧
+    (handlerCalls (Client.run {} (pre ++ .rx 5500 (wRsp 5001) true :: [.tick 6000])).2).length = 1 := by
+  refine ⟨Or.inl rfl, by decide, by decide, by decide, by decide⟩
+
+/-! ### liveness at full strength -/
+
+/-- a schedule either has no late copy of the response, or it has a prefix without one at whose end the client has
+    already called the NACK handler -/
+theorem noLate_or_nacked (r : Dgram) : ∀ (es : List CEvent) (c : Client),
+    NoLate r c es ∨ ∃ es1 es2, es = es1 ++ es2 ∧ NoLate r c es1 ∧ 1 ≤ nNack (Client.run c es1).2 := by
+  intro es
+  induction es with
+  | nil => intro c; exact Or.inl trivial
+  | cons e es ih =>
+    intro c
+    by_cases hn : nNack (c.step e).2 > 0
+    · right
+      refine ⟨[e], es, rfl, ⟨(fun _ e' he' => by cases he'), trivial⟩, ?_⟩
+      rw [Client.run_cons]; simp only [nNack_append]; omega
+    · rcases ih (c.step e).1 with h | ⟨es1, es2, h1, h2, h3⟩
+      · exact Or.inl ⟨fun h' => absurd h' hn, h⟩
+      · right
+        refine ⟨e :: es1, es2, by rw [h1]; rfl, ⟨fun h' => absurd h' hn, h2⟩, ?_⟩
+        rw [Client.run_cons]; simp only [nNack_append]; omega
+
+/-- **never neither once the network is quiet** (liveness, full strength: no `NoLate`, no hypothesis on the server).
+    For EVERY schedule `es` of time steps and arrivals of copies of the empty ACK and of the response message that is
+    FAIR — a copy of the response is delivered (a request copy and a response copy got through), or no copy of the
+    empty ACK is delivered (nothing stops the retransmissions: MAX_RETRANSMIT is exhausted) — and every continuation in
+    which the network is quiet and the clock runs (`ticks ts`, at least 1 + MAX_RETRANSMIT timer calls, each at or
+    after the deadline then pending), the request HAS concluded: by the response handler or by the NACK handler. -/
+theorem never_neither {req r : Dgram} (X : Exchange req r) (c0 : Client) (hidle : c0.L = Idle)
+    (hfresh : fresh c0 r) (now0 T : Nat) (es : List CEvent) (hes : ∀ e ∈ es, ExEv req r e)
+    (hfair : (∃ e ∈ es, isRsp r e) ∨ (∀ e ∈ es, ¬ isEAck req e))
+    (ts : List Nat) (hlen : 1 + maxRetransmit ≤ ts.length)
+    (hts : TimerRuns (Client.run c0 (.appSend now0 req T :: es)).1 ts) :
+    1 ≤ nRsp (Client.run c0 (.appSend now0 req T :: (es ++ ticks ts))).2 +
+        nNack (Client.run c0 (.appSend now0 req T :: (es ++ ticks ts))).2 := by
+  rcases noLate_or_nacked r es (c0.appSend now0 req T).1 with h | ⟨es1, es2, h1, _, h3⟩
+  · have := (concludes_when_quiet_partial X c0 hidle hfresh now0 T es hes h hfair ts hlen hts).1
+    omega
+  · subst h1
+    have happ : (CEvent.appSend now0 req T :: (es1 ++ es2 ++ ticks ts)) =
+        (CEvent.appSend now0 req T :: es1) ++ (es2 ++ ticks ts) := by simp
+    rw [happ, Client.run_append]
+    simp only [nNack_append]
+    have : nNack (Client.run c0 (.appSend now0 req T :: es1)).2 =
+        nNack (c0.appSend now0 req T).2 + nNack (Client.run (c0.appSend now0 req T).1 es1).2 := by
+      rw [Client.run_cons]; simp only [Client.step, nNack_append]
+    omega
+
+/-- `never_neither`: the NACK came, then a late copy of the response (outside `NoLate`): still concluded (twice — the
+    open finding — but not "neither") -/
+example :
+    let es : List CEvent := [.tick 3000, .tick 7000, .tick 15000, .tick 31000, .tick 63000, .rx 76001 (wRsp 5001) true]
+    let ts : List Nat := [80000, 80001, 80002, 80003, 80004]
+    (∀ e ∈ es, ExEv wReq (wRsp 5001) e) ∧ (∃ e ∈ es, isRsp (wRsp 5001) e) ∧
+    TimerRuns (Client.run {} (.appSend 1000 wReq 2000 :: es)).1 ts ∧
+    ¬ NoLate (wRsp 5001) (({} : Client).appSend 1000 wReq 2000).1 es ∧
+    1 ≤ nRsp (Client.run {} (.appSend 1000 wReq 2000 :: (es ++ ticks ts))).2 := by
+  refine ⟨?_, ⟨_, List.mem_cons_of_mem _ (List.mem_cons_of_mem _ (List.mem_cons_of_mem _ (List.mem_cons_of_mem _
+    (List.mem_cons_of_mem _ (List.mem_cons_self ..))))), rfl⟩, by decide, ?_, by decide⟩
+  · intro e he
+    simp only [List.mem_cons, List.mem_nil_iff, or_false] at he
+    rcases he with rfl | rfl | rfl | rfl | rfl | rfl
+    · exact .tick _
+    · exact .tick _
+    · exact .tick _
+    · exact .tick _
+    · exact .tick _
+    · exact .response _ _
+  · intro h
+    have h5 := h.2.2.2.2.1
+    exact h5 (by decide) _ (List.mem_cons_self ..) rfl
 
 end Coap.C07
